@@ -36,6 +36,27 @@ def make_transparent(fd):
     termios.tcsetattr(fd, termios.TCSANOW, a)
 
 
+class PinnedEncoding:
+    """Make curtsies.input see `encoding` as the terminal encoding: its own helper
+    getpreferredencoding() is replaced where it exists, and locale.getpreferredencoding
+    (which that helper consults) as well, so that the pin survives a renamed helper."""
+
+    def __init__(self, encoding):
+        import locale
+        import curtsies.input as ci
+        self.ci, self.locale, self.encoding = ci, locale, encoding
+        self._helper = getattr(ci, "getpreferredencoding", None)
+        self._locale = locale.getpreferredencoding
+        if self._helper is not None:
+            ci.getpreferredencoding = lambda: encoding
+        locale.getpreferredencoding = lambda do_setlocale=True: encoding
+
+    def restore(self):
+        if self._helper is not None:
+            self.ci.getpreferredencoding = self._helper
+        self.locale.getpreferredencoding = self._locale
+
+
 class Pty:
     """One pty pair; `stream` is a text file object on the slave (what curtsies gets)."""
 
